@@ -966,6 +966,15 @@ func runC18(c *Ctx) {
 				return // a value-receiver method forwarding its own receiver
 			}
 			good, why := f.valueFNN(recv, fn, 0)
+			// what an ensure()-style method of the receiver hands back — the map behind p after "if *p == nil { *p = fresh }"
+			// — is never nil (fresh if it was nil, the existing map otherwise), which is all a writer needs
+			if rc, isCall := recv.(*ssa.Call); isCall && !good {
+				if h := origin(staticCallee(&rc.Call)); h != nil && len(rc.Call.Args) > 0 && nilRecvMakesFresh(h) {
+					if _, isPtr := h.Params[0].Type().Underlying().(*types.Pointer); isPtr {
+						good = true
+					}
+				}
+			}
 			if ph, isPhi := recv.(*ssa.Phi); isPhi && !good {
 				// a local holding the map (dst := *s; if dst == nil { dst = make(…); *s = dst }): every value that can
 				// reach the call is a fresh non-nil map or one known to be non-nil on its edge
